@@ -175,4 +175,101 @@ theorem sign_after_prefix_witness :
     toBigInt (.str (StrInfo.ofText [45, 48, 120, 49, 70] "" none none)) = .error .format := by
   decide
 
+/-! ## float32 target and string target, source kind by source kind -/
+
+/-- What a successful `ToFloat[float32]` must have returned. -/
+def float32Post (r : F) : Src → Prop
+  | .f32 x => r = x ∧ x ≠ .nan
+  | .f64 x => x ≠ .nan ∧ absGtMaxF32 x = false ∧ r = roundF32 x
+  | .int _ v => r = .fin (toF32Int v) 0
+  | .bool b => r = roundF32 (.fin (boolInt b) 0)
+  | .str i => (i.blank = true ∧ r = .fin 0 0) ∨ (i.pFloat32 = some r ∧ r ≠ .nan)
+  | .big v => r = bigToF32 v ∧ ∃ a k, r = .fin a k
+  | .cplx _ _ mag => absGtMaxF32 mag = false ∧ r = roundF32 mag   -- the magnitude (known finding)
+  | _ => False
+
+/-- **C17 (float32 target, value).** A float32 is returned unchanged (not NaN); a float64 is
+    rounded once to float32 (`roundF32`, correctly rounded: `C17.roundMag_correct`) after the
+    `> MaxFloat32` guard, so the result is finite (`C17.c17_f32_no_inf`); an integer is rounded once
+    to 24 bits (`toF32Int`, correctly rounded: `C17.roundTo_correct`); text is what
+    `ParseFloat(·, 32)` read (not NaN) or 0 for blank text; a big integer its finite nearest float32. -/
+theorem c17_float32_sound (s : Src) (r : F) (h : toFloat32 s = .ok r) : float32Post r s := by
+  cases s with
+  | int t v => rw [C17.toFloat32_int] at h; injection h with h; exact h.symm
+  | f32 x =>
+    rw [C17.toFloat32_f32] at h
+    cases x <;> simp [F.isNaN] at h <;> subst h <;> simp [float32Post]
+  | f64 x =>
+    rw [C17.toFloat32_f64, C17.toFloat64_f64] at h
+    cases x with
+    | nan => simp [F.isNaN, bind, Except.bind] at h
+    | pinf => simp [F.isNaN, bind, Except.bind, absGtMaxF32] at h
+    | ninf => simp [F.isNaN, bind, Except.bind, absGtMaxF32] at h
+    | fin a k =>
+      simp only [F.isNaN, Bool.false_eq_true, ↓reduceIte, bind, Except.bind] at h
+      by_cases hg : absGtMaxF32 (.fin a k) = true
+      · rw [if_pos hg] at h; cases h
+      · rw [if_neg hg] at h; injection h with h
+        exact ⟨by simp, by simpa using hg, h.symm⟩
+  | bool b =>
+    rw [C17.toFloat32_bool, C17.toFloat64_bool] at h
+    simp only [bind, Except.bind] at h
+    by_cases hg : absGtMaxF32 (.fin (boolInt b) 0) = true
+    · rw [if_pos hg] at h; cases h
+    · rw [if_neg hg] at h; injection h with h; exact h.symm
+  | str i =>
+    rw [C17.toFloat32_str] at h
+    simp only [float32Post]
+    cases hb : i.blank with
+    | true => rw [hb] at h; simp [stringToFloat] at h; left; exact ⟨rfl, h.symm⟩
+    | false =>
+      rw [hb] at h
+      cases hp : i.pFloat32 with
+      | none => rw [hp] at h; simp [stringToFloat] at h
+      | some f =>
+        rw [hp] at h
+        cases f <;> simp [stringToFloat, F.isNaN] at h <;> subst h <;> simp
+  | big v =>
+    rw [C17.toFloat32_big] at h
+    exact C17.finOrOverflow_ok _ _ h
+  | cplx re im mag =>
+    simp only [toFloat32, toFloat64, bind, Except.bind] at h
+    by_cases hg : absGtMaxF32 mag = true
+    · rw [if_pos hg] at h; cases h
+    · rw [if_neg hg] at h; injection h with h; exact ⟨by simpa using hg, h.symm⟩
+  | nilptr => cases h
+  | other => cases h
+
+example : toFloat32 (.f64 (.fin (2 ^ 24 + 1) 24)) = .ok (.fin (2 ^ 23) 23) ∧
+    float32Post (.fin (2 ^ 23) 23) (.f64 (.fin (2 ^ 24 + 1) 24)) := by
+  refine ⟨by decide, by simp, by decide, by decide⟩
+
+/-- What a successful `ToString` must have returned (`f`, `g` = `FormatFloat(x,'g',-1,32|64)`). -/
+def stringPost (f g : F → List Nat) (bs : List Nat) : Src → Prop
+  | .str i => bs = i.bytes
+  | .bool b => bs = strBytes (if b then "true" else "false")
+  | .int _ v => bs = formatInt v ∧ Denotes bs v
+  | .big v => bs = formatInt v ∧ Denotes bs v
+  | .f32 x => bs = f x
+  | .f64 x => bs = g x
+  | _ => False
+
+/-- **C17 (string target).** Text is returned unchanged; a bool is "true"/"false"; an integer or
+    big integer is the decimal numeral that denotes it (`formatInt_denotes`), which the integer
+    helpers read back (`c17_text_roundtrip_i64`, `c17_text_roundtrip_big`); a float is
+    `strconv.FormatFloat(x,'g',-1,bits)` (parameter: judged by the value its text denotes in the
+    correspondence). -/
+theorem c17_string_sound (f g : F → List Nat) (s : Src) (bs : List Nat) (h : toStr f g s = .ok bs) :
+    stringPost f g bs s := by
+  cases s with
+  | str i => injection h with h; exact h.symm
+  | bool b => injection h with h; exact h.symm
+  | int t v => injection h with h; subst h; exact ⟨rfl, formatInt_denotes v⟩
+  | big v => injection h with h; subst h; exact ⟨rfl, formatInt_denotes v⟩
+  | f32 x => injection h with h; exact h.symm
+  | f64 x => injection h with h; exact h.symm
+  | cplx _ _ _ => cases h
+  | nilptr => cases h
+  | other => cases h
+
 end Gozod.C17T
